@@ -22,7 +22,8 @@ RULE = (
     "exploration = ALL random streams: every scalar draw of every Categorical/Binomial sample call is a choice point, all choice "
     "vectors enumerated depth-first, each execution weighted by the product of the probabilities taken; oracle: total weight 1, "
     "the weighted distribution of returned rows equals the circuit's exact probabilities (reference model, 1e-12), support, "
-    "shape (N, |scope|), N = 2 factorises. Non-trivial: >= 2 distinct rows observed with positive weight"
+    "shape (N, |scope|), N = 2 factorises; for N = 1 the whole exploration is repeated on the same compiled circuit and query after "
+    "an in-place update of every parameter (stale sampling caches). Non-trivial: >= 2 distinct rows observed with positive weight"
 )
 ASSUMPTIONS = ["continuous (Gaussian) inputs are not enumerable and are outside this check", "variables numbered 0..n-1 (the query returns one column per variable)"]
 BOUNDS = {"quick": {"max_vars": 3, "max_points": 14}, "thorough": {"max_vars": 3, "max_points": 17}}
@@ -94,6 +95,39 @@ def run_case(case):
                 "violations": [{"sig": {"kind": "exception", **exc_sig(e), **sig_base}, "detail": traceback.format_exc()[-1200:], "case": case}]}
     if capped:
         return {"status": "skip", "nontrivial": False, "dims": dims, "counters": {"capped_cases": 1}}
+    viols = check_distribution(dist, total, exact, n, vs)
+    phase2 = 0
+    if not viols and n == 1 and executions <= PHASE2_MAX_EXECUTIONS:
+        # second phase on the SAME compiled circuit and query: change every parameter in place, then explore all streams again
+        val2 = cdl.valuation(roles, "monotone", seed + 101)
+        table2 = ref.eval_circuit_table(sc, ref.with_cache(val2), rows)[:, 0, 0].real
+        if abs(table2.sum() - 1.0) > 1e-9 or np.any(table2 < 0):
+            raise RuntimeError(f"harness: circuit is not normalised after the update (Z={table2.sum()})")
+        exact2 = {tuple(int(r[v]) for v in vs): float(p) for r, p in zip(rows, table2)}
+        try:
+            cc.bind(val2)
+            dist2, ex2, points2, total2, capped2 = choice.explore(run, max_executions=cap)
+        except choice.Divergence as e:
+            raise RuntimeError(f"harness: {e}")
+        except Exception as e:
+            return {"status": "violation", "nontrivial": False, "dims": dims,
+                    "violations": [{"sig": {"kind": "exception", "phase": "after-update", **exc_sig(e), **sig_base}, "detail": traceback.format_exc()[-1200:], "case": case}]}
+        if not capped2:
+            phase2 = 1
+            executions += ex2
+            viols = [(k + "-after-update", "after an in-place update of every parameter: " + d) for k, d in check_distribution(dist2, total2, exact2, n, vs)]
+    out = {"status": "violation" if viols else "ok", "nontrivial": len(dist) >= 2, "dims": dims, "evaluations": executions,
+           "counters": {"executions": executions, "choice_points_max": points, "resampled_after_update": phase2}, "outcome": f"{len(dist)}:{points}",
+           "summary": f"{executions} executions, {points} choice points, {len(dist)} distinct observations, total weight {total:.12f}"}
+    if viols:
+        out["violations"] = [{"sig": {"kind": k, **sig_base}, "detail": d, "case": case} for k, d in viols]
+    return out
+
+
+PHASE2_MAX_EXECUTIONS = 4096
+
+
+def check_distribution(dist, total, exact, n, vs):
     viols = []
     if abs(total - 1.0) > 1e-9:
         viols.append(("weights", f"total weight of all executions = {total}"))
@@ -116,9 +150,4 @@ def run_case(case):
         missing = [r for r, p in exact.items() if p > 1e-12 and r not in seen_rows]
         if missing and not viols:
             viols.append(("distribution", f"rows {missing[:3]} with positive probability are never sampled"))
-    out = {"status": "violation" if viols else "ok", "nontrivial": len(dist) >= 2, "dims": dims, "evaluations": executions,
-           "counters": {"executions": executions, "choice_points_max": points}, "outcome": f"{len(dist)}:{points}",
-           "summary": f"{executions} executions, {points} choice points, {len(dist)} distinct observations, total weight {total:.12f}"}
-    if viols:
-        out["violations"] = [{"sig": {"kind": k, **sig_base}, "detail": d, "case": case} for k, d in viols]
-    return out
+    return viols
